@@ -4,7 +4,6 @@
 -/
 import CnvVerif.Model.Vcf
 import CnvVerif.Lemmas.Vcf
-import CnvVerif.Lemmas.SrcMirror
 namespace CnvVerif.C18
 open CnvVerif CnvVerif.Vcf
 
@@ -328,9 +327,5 @@ example : summarize none [some (1/4), some (7/8), some (5/8)] = some (3/4) := by
 example : tumorBoost (1/4) (1/2) = some (1/4) ∧ tumorBoost (1/4) (5/8) = some (1/5) := by
   constructor <;> decide +kernel
 example : rescaleBaf (1/2) (3/8) = 1/4 := by decide +kernel
-
-/-- the model's mirroring IS the expression `_mirrored_baf` computes when the side is left to the median test -/
-theorem mirrored_baf_is_the_source (v m : Rat) :
-    Vcf.mirrorOne (decide (m > 1/2)) v = Generated.src_mirrored_baf_auto v m := Src.mirrorOne_is_source v m
 
 end CnvVerif.C18
